@@ -26,7 +26,27 @@ class LoopSpec:
         self.name = name
 
 
+class SuperProxy:
+    def __init__(self, obj, owner):
+        self.obj = obj
+        self.owner = owner
+
+
 class Interpreter(Interp):
+    def __init__(self, eng, builtins=None):
+        super().__init__(eng, builtins)
+        self.frames = []
+
+    def do_super(self):
+        if not self.frames:
+            raise OutOfReach("super() outside a method")
+        fv, frame = self.frames[-1]
+        if fv.owner is None:
+            raise OutOfReach("super() in a function without owner class")
+        a = fv.node.args
+        first = (a.posonlyargs + a.args)[0].arg
+        return SuperProxy(frame.vars[first], fv.owner)
+
     # ------------------------------------------------------------------------------------------------
     # statements
     # ------------------------------------------------------------------------------------------------
@@ -148,6 +168,13 @@ class Interpreter(Interp):
         for t in node.targets:
             if isinstance(t, ast.Subscript):
                 obj = self.ev(t.value, env)
+                if isinstance(t.slice, ast.Slice):
+                    lo = self.ev(t.slice.lower, env) if t.slice.lower else None
+                    hi = self.ev(t.slice.upper, env) if t.slice.upper else None
+                    if not isinstance(obj, list) or isinstance(lo, SV) or isinstance(hi, SV) or t.slice.step:
+                        raise OutOfReach("del of a symbolic slice")
+                    del obj[lo:hi]
+                    continue
                 idx = self.ev(t.slice, env)
                 self.delitem(obj, idx)
             elif isinstance(t, ast.Name):
@@ -428,11 +455,24 @@ class Interpreter(Interp):
             raise OutOfReach(f"constructor {fn.name}")
         if isinstance(fn, ClassRec):
             return self.instantiate(fn, args, kwargs)
+        if isinstance(fn, SV):
+            from .values import value_of_obj
+            back = value_of_obj(fn.t)
+            if back is not None:
+                return self.call(back, args, kwargs, node=node)
+            hook = self.method_tables.get((fn.t.sort().name(), "__call__"))
+            if hook is not None:
+                return hook(self, fn, *args, **kwargs)
+            raise OutOfReach(f"call of symbolic {fn.t.sort()}")
         if isinstance(fn, Rec) and "__call__" in fn._fields:
             return self.call(fn._fields["__call__"], args, kwargs)
         if callable(fn):
             return fn(self, *args, **kwargs)
         raise exc("TypeError", f"{fn!r} is not callable")
+
+    def await_if_coro(self, v):
+        from .interp import Coro as _C
+        return self.await_(v) if isinstance(v, _C) else v
 
     def instantiate(self, cls, args, kwargs):
         if "BaseException" in cls.mro_names():
@@ -441,6 +481,9 @@ class Interpreter(Interp):
         obj = Rec(cls=cls, name=cls.name)
         init = cls.lookup("__init__")
         if init is not None:
+            if getattr(init[0], "_is_method", False):
+                init[0](self, obj, *args, **kwargs)
+                return obj
             r = self.call(init[0], [obj] + list(args), kwargs)
             if isinstance(r, Coro):
                 raise OutOfReach("async __init__")
@@ -455,6 +498,7 @@ class Interpreter(Interp):
         if self.depth > 40:
             raise OutOfReach("recursion depth")
         self.func_stack.append(fv.qualname)
+        self.frames.append((fv, frame))
         saved_exc = self.cur_exc
         try:
             if isinstance(node, ast.Lambda):
@@ -466,6 +510,7 @@ class Interpreter(Interp):
             return None
         finally:
             self.func_stack.pop()
+            self.frames.pop()
             self.depth -= 1
 
     def bind_args(self, fv, frame, args, kwargs):
@@ -531,6 +576,16 @@ class Interpreter(Interp):
             if ga is not None:
                 return self.call(ga, [attr], {})
             raise exc("AttributeError", f"{obj!r} has no attribute '{attr}'")
+        if isinstance(obj, SuperProxy):
+            for b in obj.owner.bases:
+                if isinstance(b, ClassRec):
+                    r = b.lookup(attr)
+                    if r is not None:
+                        if isinstance(obj.obj, ClassRec):
+                            v = r[0]
+                            return BoundMethod(v, obj.obj) if isinstance(v, FuncVal) and v.kind == "classmethod" else v
+                        return self.bind_method(r[0], obj.obj, r[1])
+            raise exc("AttributeError", f"super object has no attribute '{attr}'")
         if isinstance(obj, ClassRec):
             r = obj.lookup(attr)
             if r is None:
@@ -769,7 +824,7 @@ class Interpreter(Interp):
             if len(items) <= 1:
                 return list(items)
             perms = list(itertools.permutations(range(len(items))))
-            k = self.eng.choose(len(perms), "order")
+            k = self.eng.choose(len(perms), "order") % len(perms)
             return [items[i] for i in perms[k]]
         if isinstance(v, (list, tuple)):
             return list(v)
@@ -1211,4 +1266,5 @@ DEFAULT_BUILTINS.update({
     "id": lambda i, v: id(v),
     "repr": lambda i, v: repr(v) if isinstance(v, (int, str, float, bool, type(None))) else SV(i.str_of(v)),
     "True": True, "False": False, "None": None,
+    "super": lambda i: i.do_super(),
 })
